@@ -26,10 +26,15 @@ pub(crate) fn format_docstring(docstring: String) -> String {
 
     let lines = &lines[start..end];
 
+    // Only the line that directly follows the opening quotes is exempt from the margin
+    // computation (PEP 257 / inspect.cleandoc). When the text starts on a later line,
+    // that line is indented like the rest and must take part in it.
+    let first_line_follows_quotes = start == 0;
+
     // Find minimum indentation (excluding first line if it's not empty)
     let mut min_indent = usize::MAX;
     for (i, line) in lines.iter().enumerate() {
-        if i == 0 && !line.trim().is_empty() {
+        if i == 0 && first_line_follows_quotes && !line.trim().is_empty() {
             continue; // First line indentation doesn't count
         }
 
